@@ -127,6 +127,9 @@ def manifestStep (st : MState) (line : String) : MState × String :=
     match parseChanges cs with
     | none => (st, "bad-op")
     | some cs => (st, replayStr (replay cd (mf.file ++ frame cd (cd.enc cs)) mf.ext))
+  -- a stale MANIFEST-REWRITE left in the directory by a rewrite that crashed before its rename:
+  -- helpRewrite opens that path with O_TRUNC, so it has no effect on anything
+  | ["leftover"], some _ => (st, "ok")
   | ["file"], some mf => (st, toHex mf.file)
   | ["replay"], some mf => (st, replayStr (replay cd mf.file mf.ext))
   | ["cut", k], some mf =>
